@@ -60,6 +60,7 @@ type DocSpec struct {
 	TextOps  int  `json:"text_ops"`  // 0 Tj only, 1 TJ arrays, 2 mixed incl. Tm / T* positioning
 	FormXObj bool `json:"form_xobj"` // some lines live in a Form XObject
 
+	StdWidths     bool `json:"std_widths,omitempty"` // standard Type1 fonts carry their own /Widths (content level: they change text geometry)
 	ForceCMapForm int `json:"force_cmap_form,omitempty"` // 0 = drawn per font; 1 bfchar only, 2 bfrange, 3 bfrange with arrays
 
 	Revisions int   `json:"revisions"` // incremental updates after the base (0..4)
@@ -283,6 +284,9 @@ func (d *docState) buildBase(set map[int]Obj) {
 		f := NewFont(k, "F"+strconv.Itoa(i+1), r.Split("font"+strconv.Itoa(i)))
 		if sp.ForceCMapForm > 0 {
 			f.CMapForm = sp.ForceCMapForm - 1
+		}
+		if sp.StdWidths {
+			f.Widths = 200 + int(sp.Seed%9)*150
 		}
 		d.fonts = append(d.fonts, f)
 		num := d.alloc()
